@@ -120,6 +120,10 @@ pub fn relevant(property: &str, class: &str) -> bool {
     }
 }
 
+/// at most this many signatures are remembered per worker and per set (16 workers x 2 sets x 4 M x ~40 B < 6 GiB)
+pub const SIG_CAP_PER_WORKER: usize = 4_000_000;
+pub const SIG_CAP_TOTAL: usize = 48_000_000;
+
 #[derive(Default)]
 pub struct Acc {
     pub evals: u64,
@@ -139,6 +143,7 @@ pub struct Acc {
     pub sweep_records: u64,
     pub sweep_exhaustive: u64,
     pub per_run_digests: Vec<(u64, u64)>,
+    pub sigs_saturated: bool,
 }
 
 impl Acc {
@@ -151,9 +156,18 @@ impl Acc {
         for (k, v) in &rep.probes {
             *self.probes.entry(k).or_insert(0) += u64::from(*v);
         }
-        self.sigs.insert(rep.signature);
+        // memory guard: beyond the cap the count becomes a lower bound (flagged in the evidence)
+        if self.sigs.len() < SIG_CAP_PER_WORKER {
+            self.sigs.insert(rep.signature);
+        } else {
+            self.sigs_saturated = true;
+        }
         if rep.nontrivial {
-            self.sigs_nontrivial.insert(rep.signature);
+            if self.sigs_nontrivial.len() < SIG_CAP_PER_WORKER {
+                self.sigs_nontrivial.insert(rep.signature);
+            } else {
+                self.sigs_saturated = true;
+            }
         }
         *self.per_codec.entry(format!("{}/{}", plan.arm, plan.codec)).or_insert(0) += 1;
         *self.per_config.entry(match plan.config {
@@ -203,8 +217,21 @@ impl Acc {
         for (k, v) in o.probes {
             *self.probes.entry(k).or_insert(0) += v;
         }
-        self.sigs.extend(o.sigs);
-        self.sigs_nontrivial.extend(o.sigs_nontrivial);
+        self.sigs_saturated |= o.sigs_saturated;
+        for s in o.sigs {
+            if self.sigs.len() >= SIG_CAP_TOTAL {
+                self.sigs_saturated = true;
+                break;
+            }
+            self.sigs.insert(s);
+        }
+        for s in o.sigs_nontrivial {
+            if self.sigs_nontrivial.len() >= SIG_CAP_TOTAL {
+                self.sigs_saturated = true;
+                break;
+            }
+            self.sigs_nontrivial.insert(s);
+        }
         for (k, v) in o.per_codec {
             *self.per_codec.entry(k).or_insert(0) += v;
         }
@@ -634,6 +661,7 @@ fn evidence(
             "rule": "one evaluation = one simulated run (one codec arm, one width, 1-4 records through producer -> medium -> consumer, or one parser / generator call) or one point of the single-fault sweep; every choice derives from VERIF_SEED via splitmix64(seed, stage, index) -> xoshiro256**. distinct = number of different coverage signatures (arm, codec, flavour, width class, value class, configuration, set of fault kinds that actually fired, damage locus, codec knobs, per-operation outcome letters); non-trivial = at least one fault fired or a non-zero value / non-empty text was involved",
             "samples": samples,
             "distinct_signatures_total": total.sigs.len(),
+            "distinct_counts_are_lower_bounds": total.sigs_saturated,
             "simulated_runs": total.runs,
             "runs_per_hour": if wall > 0.0 { (total.evals as f64 / wall * 3600.0) as u64 } else { 0 },
             "seam_events": total.seam_events,
